@@ -18,7 +18,7 @@ RULE = ("altitudes -500..20000 m (uniform, plus 0, 11000 +- {0,1e-6,1}, 20000, -
         "CAS=EAS=TAS at sea level, TAS>=EAS and CAS>=EAS for h>=0, distance symmetric and within 0.5 m + 1e-9 d of haversine, bearing in [0,360); "
         "array results equal element-wise scalar results. non-trivial = altitude within 1 m of 0/11000/20000 or above the tropopause, speed > 250 m/s or < 5 m/s, "
         "antipodal/polar/antimeridian coordinate pairs"
-        ' Also: whole-number arguments as Python ints, int16/int32/int64/uint16 arrays, an altitude array updated in place between two calls, a scalar speed with an altitude array and a speed array with a scalar altitude, single-precision (numpy.float32) calls at the same altitudes made earlier in the process, altitudes on the 25 m grid, 2-D altitude arrays in C / Fortran order and as transposed or strided views, coordinate arrays of float / signed / unsigned integer dtypes in both longitude conventions (leg geo_arrays).')
+        ' Also: whole-number arguments as Python ints, int16/int32/int64/uint16 arrays, an altitude array updated in place between two calls, a scalar speed with an altitude array and a speed array with a scalar altitude, single-precision (numpy.float32) calls at the same altitudes made earlier in the process, altitudes on the 25 m grid, broadcast shapes (column x row, one-element arrays), 2-D altitude arrays in C / Fortran order and as transposed or strided views, coordinate arrays of float / signed / unsigned integer dtypes in both longitude conventions (leg geo_arrays).')
 ASSUMPTIONS = ["numpy evaluates trigonometric functions of float32 and of 16-bit integer arrays in single precision; distance/bearing on such arrays are judged at that precision (5 km / 1e-3 deg), on 32/64-bit integer and float64 arrays at 0.5 m / 1e-9 deg",
                "ISA reference ref/isa.py (g0/(R L) = 5.25588) checked at import against tabulated ICAO values",
                "compressible round trips judged at 1e-6 relative: the impact-pressure formula cancels at low speed (measured worst 7e-9)"]
@@ -186,6 +186,18 @@ def chk_arrays(c, note):
         sc = [float(getattr(aero, f)(h)) for h in c["h"]]
         if np.shape(arr) != (len(sc),) or any(rel(float(a), b) > 1e-12 for a, b in zip(arr, sc)):
             return "%s on array %r = %r but scalars give %r" % (f, c["h"], arr, sc)
+    # broadcasting: a column of speeds against a row of altitudes, a one-element speed array against an altitude array
+    if len(c["h"]) > 1:
+        for f in ("tas2cas", "cas2tas", "tas2eas", "eas2tas", "tas2mach", "mach2tas", "cas2mach"):
+            for what, a_, b_ in (("a column of speeds, a row of altitudes", V.reshape(-1, 1), H.reshape(1, -1)), ("a one-element speed array, an altitude array", V[:1], H),
+                                 ("a speed array, a one-element altitude array", V, H[:1])):
+                got = call(getattr(aero, f), a_, b_)
+                shape = np.broadcast(a_, b_).shape
+                A2, B2 = np.broadcast_to(a_, shape), np.broadcast_to(b_, shape)
+                exp = np.array([float(getattr(aero, f)(float(x), float(y))) for x, y in zip(A2.ravel().tolist(), B2.ravel().tolist())]).reshape(shape)
+                tol = 1e-6 if "cas" in f else 1e-12
+                if got[0] != "ok" or np.shape(got[1]) != shape or np.any(np.abs(np.asarray(got[1], dtype=float) - exp) > tol * np.abs(exp)):
+                    return "%s(%s: %r, %r) -> %r, element-wise scalars give %r" % (f, what, a_.tolist(), b_.tolist(), got, exp.tolist())
     # arrays of more than one dimension in every memory layout: C order, Fortran order, a transposed view, a strided view
     hs = (c["h"] * 4)[:max(4, len(c["h"]) // 2 * 2 + 2)]
     hs = hs[:len(hs) // 2 * 2]
